@@ -8,6 +8,7 @@ import (
 	"os"
 	"os/exec"
 	"path/filepath"
+	"regexp"
 	"runtime"
 	"strconv"
 	"strings"
@@ -93,6 +94,29 @@ type snapshot struct {
 	active        int
 	bfull         bool // the batch channel (cap --batch-buffer) was full when this render ran
 	rfull         bool // the 5-slot match channel was full when this render ran
+}
+
+var ansiRe = regexp.MustCompile("\x1b\\[[0-9;]*m")
+var summaryRe = regexp.MustCompile(`Matched: ([0-9,]+) / ([0-9,]+)`)
+var ignoredRe = regexp.MustCompile(`\(Ignored: ([0-9,]+)\)`)
+
+// parseSummary reads "Matched: M / R .. (Ignored: I)" as the commands print it (colour codes and thousands
+// separators removed).
+func parseSummary(s string) (m, r, i uint64, ok bool) {
+	s = ansiRe.ReplaceAllString(s, "")
+	g := summaryRe.FindStringSubmatch(s)
+	if g == nil {
+		return 0, 0, 0, false
+	}
+	num := func(t string) uint64 {
+		v, _ := strconv.ParseUint(strings.ReplaceAll(t, ",", ""), 10, 64)
+		return v
+	}
+	m, r = num(g[1]), num(g[2])
+	if ig := ignoredRe.FindStringSubmatch(s); ig != nil {
+		i = num(ig[1])
+	}
+	return m, r, i, true
 }
 
 func check(c Case) error {
@@ -183,6 +207,12 @@ func check(c Case) error {
 	// ends in unmatched or ignored lines still has to be counted in it
 	if final.read != wr || final.ignored != wi {
 		return fmt.Errorf("final render shows %d lines read and %d ignored, true counts %d and %d: the last render did not come after the last line was classified", final.read, final.ignored, wr, wi)
+	}
+	// ... and the summary TEXT of the final frame says so (it is what stays on screen)
+	if sm, sr, si, ok := parseSummary(final.summary); !ok {
+		return fmt.Errorf("final render: cannot read the summary line %q", final.summary)
+	} else if sm != wm || sr != wr || si != wi {
+		return fmt.Errorf("the summary line of the final frame reads %q (matched %d / read %d, ignored %d); true totals: matched %d / read %d, ignored %d", final.summary, sm, sr, si, wm, wr, wi)
 	}
 	if got := p.Extractor.MatchedLines(); got != wm {
 		return fmt.Errorf("MatchedLines=%d after the run, true count %d", got, wm)
